@@ -1,0 +1,76 @@
+// SPDX-FileCopyrightText: 2026 The Pion community <https://pion.ly>
+// SPDX-License-Identifier: MIT
+
+//go:build verif
+
+package h265writer
+
+// Contracts for the contract-based verification in /verif (build tag verif); comments only.
+
+//@ func specKeyType265
+//@ pure
+//@ nosafety
+//@ func specNaluType265
+//@ pure
+//@ nosafety
+//@ func specAPFirstKey
+//@ pure
+//@ nosafety
+//@ func specKeyStart265
+//@ pure
+//@ nosafety
+//@ func specKeyPlain265
+//@ pure
+//@ nosafety
+
+//@ func isKeyFrameNalu
+//@ props C35
+//@ ensures result == specKeyType265(byte(naluType))
+//@ modifies nothing
+
+// Aggregation packets: true when the first aggregated unit is a keyframe unit; true only
+// if some byte that can be a unit header (offset 4 or later) has a keyframe type.
+//@ func checkAggregationPacketForKeyFrame
+//@ props C35
+//@ ensures specAPFirstKey(data) ==> result
+//@ ensures result ==> (exists k int :: 4 <= k && k < len(data) && specKeyType265(specNaluType265(data[k])))
+//@ modifies nothing
+//@ loop 0 invariant offset >= 2 && (offset == 2 || !specAPFirstKey(data))
+
+// The keyframe predicate: every packet that starts a keyframe (the property's definition)
+// is recognised, and nothing else is except fragments / aggregated units of keyframe type.
+//@ func isKeyFrame
+//@ props C35
+//@ observe len(data)
+//@ observe b0 := ite(len(data) >= 1, data[0], 0)
+//@ observe b2 := ite(len(data) >= 3, data[2], 0)
+//@ ensures specKeyStart265(data) ==> result
+//@ ensures result ==> specKeyPlain265(data) || (len(data) >= 2 && specNaluType265(data[0]) == 48 && (exists k int :: 4 <= k && k < len(data) && specKeyType265(specNaluType265(data[k]))))
+//@ modifies nothing
+
+// Assumed contracts on dependencies (see the H.264 writer).
+//@ func (*codecs.H265Depacketizer).Unmarshal
+//@ trusted
+//@ ensures (err == nil && len(ret0) > 0) == (ufint("depktout") != 0)
+//@ modifies nothing
+//@ func (io.Writer).Write
+//@ trusted
+//@ ghost wrWrites += 1
+//@ modifies nothing
+
+//@ field H265Writer.hasKeyFrame props C35 writers (*H265Writer).WriteRTP
+//@ field H265Writer.writer props C35 writers
+
+// Gating, relative to the keyframe predicate: nothing is written before the first packet
+// the predicate accepts; from it on every packet is handed to the depacketizer and its
+// output (when there is any) is written exactly once; the gate never closes again.
+//@ func (*H265Writer).WriteRTP
+//@ props C35
+//@ requires h != nil && packet != nil && h.writer != nil
+//@ observe old(h.hasKeyFrame)
+//@ ensures old(h.hasKeyFrame) ==> h.hasKeyFrame
+//@ ensures len(packet.Payload) == 0 ==> err == nil && h.hasKeyFrame == old(h.hasKeyFrame) && ghost(wrWrites) == old(ghost(wrWrites))
+//@ ensures len(packet.Payload) > 0 && !old(h.hasKeyFrame) && !h.hasKeyFrame ==> err == nil && ghost(wrWrites) == old(ghost(wrWrites))
+//@ ensures len(packet.Payload) > 0 && !old(h.hasKeyFrame) && specKeyStart265(packet.Payload) ==> h.hasKeyFrame
+//@ ensures len(packet.Payload) > 0 && h.hasKeyFrame ==> ghost(wrWrites) == old(ghost(wrWrites)) + ite(ufint("depktout") != 0, 1, 0)
+//@ atcall (io.Writer).Write assert h.hasKeyFrame && sameptr(callarg1, data) && len(callarg1) == len(data) && len(data) > 0
